@@ -49,6 +49,9 @@ namespace
                 ++l.connects;
                 l.weak = peer;
                 ++sh->total_connects;
+                static const bool dbg = getenv("VERIF_DEBUG") != nullptr;
+                if (dbg)
+                    fprintf(stderr, "  [%.3f] onConnection    peer %zu fd %d\n", net::now_s(), peer->getID(), peer->fd());
             }
             // what Http::Handler::onConnection does (it is private there): register the parser
             peer->putData(ParserData, std::make_shared<Http::RequestParser>(getMaxRequestSize()));
@@ -59,6 +62,9 @@ namespace
             auto& l = sh->peers[peer->getID()];
             ++l.disconnects;
             ++sh->total_disconnects;
+            static const bool dbg = getenv("VERIF_DEBUG") != nullptr;
+            if (dbg)
+                fprintf(stderr, "  [%.3f] onDisconnection peer %zu fd %d\n", net::now_s(), peer->getID(), peer->fd());
         }
         void onRequest(const Http::Request& req, Http::ResponseWriter w) override
         {
@@ -155,6 +161,13 @@ namespace
                 w.send(Http::Code::Ok, "ok");
                 return;
             }
+            if (res.rfind("/hold/", 0) == 0)
+            {
+                // keeps the worker and does not answer (its client does not wait for an answer): nothing is queued
+                // for writing when it returns
+                net::sleep_ms(atoi(res.c_str() + 6));
+                return;
+            }
             if (res.rfind("/busy/", 0) == 0)
             {
                 net::sleep_ms(atoi(res.c_str() + 6)); // keeps this connection's worker from looking at its sockets
@@ -181,10 +194,17 @@ namespace
                TimedParked,    // one request whose handler arms a 100 ms response time-out and never answers: 408 expected
                AcrossSweep,    // request, pause, (one connection of the round asks for /sweep), request again, close
                ServedFiles,    // asks for files of 0, 1 and 3000 bytes served with serveFile, reads each, closes
-               StuckThenSilent }; // asks for a large response into a 4 KiB window, reads nothing, stays silent past the idle time-out, then closes
+               StuckThenSilent, // asks for a large response into a 4 KiB window, reads nothing, stays silent past the idle time-out, then closes
+               // three roles of one choreographed round (single worker, 1 s time-outs; offsets from the start of the round):
+               IdleGoneWhileBusy, // connects, says nothing, closes at 1.2 s - past its time-out, while the worker is held by BusyTwice
+               BusyTwice,         // at 0.7 s asks for /hold/700 (a handler that keeps the worker and does not answer): the worker is held until 1.4 s
+               BusySecond,        // a quick request at 0.65 s (its clock restarts), at 1.25 s asks for /hold/300: the wake-up at 1.4 s holds the idle tick, the close above and this request
+               LateComer };       // connects at 1.5 s (while /busy/300 runs; it is given the descriptor number just freed) and sends a request: 200 expected
+    // (the former comment of StuckThenSilent: asks for a large response into a 4 KiB window, reads nothing, stays silent past the idle time-out, then closes
     const char* END_NAMES[] = { "close", "shutdown(WR)+read-to-EOF", "RST", "abort-with-response-pending", "silence-until-timeout", "gone-before-async-answer",
                                 "response-timeout-armed-and-answered", "response-timeout-expires(writer parked)", "open-across-sweep-of-parked-writers",
-                                "served-files(0,1,3000 bytes)", "large-response-stuck+silent-past-idle-timeout" };
+                                "served-files(0,1,3000 bytes)", "large-response-stuck+silent-past-idle-timeout",
+                                "idle-past-timeout,gone-while-worker-busy", "holds-the-worker-0.7-1.4s", "holds-the-worker-again-from-the-same-wake-up", "connects-while-worker-busy-after-idle-tick" };
 
     struct ConnScript
     {
@@ -207,8 +227,9 @@ namespace
 
     void run_conn(ConnScript& s, uint16_t port)
     {
-        int fd = net::connect_loopback(port, (s.end == AbortBigResponse || s.end == StuckThenSilent) ? 4096 : 0);
-        if (fd < 0)
+        // (the late-comer of the choreographed round connects later, inside its own branch)
+        int fd = s.end == LateComer ? -1 : net::connect_loopback(port, (s.end == AbortBigResponse || s.end == StuckThenSilent) ? 4096 : 0);
+        if (fd < 0 && s.end != LateComer)
         {
             s.fail = "connect failed";
             return;
@@ -329,6 +350,43 @@ namespace
                 net::reset_close(fd);
             else
                 ::close(fd); // nothing was read: the kernel answers the server's next write with RST
+            break;
+        }
+        case IdleGoneWhileBusy:
+            net::sleep_ms(1200);
+            ::close(fd);
+            break;
+        case BusyTwice: {
+            net::sleep_ms(700);
+            net::send_all(fd, "GET /hold/700 HTTP/1.1\r\nHost: x\r\n\r\n"); // never answered: nothing in the write queue afterwards
+            net::sleep_ms(1500);
+            ::close(fd);
+            break;
+        }
+        case BusySecond: {
+            // (a request handled while another handler runs is read in the same wake-up only if it comes from another
+            // connection: the read loop of one connection takes everything that is there before it returns)
+            net::sleep_ms(650);
+            if (!net::send_all(fd, REQ) || !net::read_message(fd, carry, true, m, 6000, err) || m.status != 200)
+                s.fail = "quick request at 0.65 s not answered 200: " + err;
+            net::sleep_ms(600);
+            net::send_all(fd, "GET /hold/300 HTTP/1.1\r\nHost: x\r\n\r\n"); // never answered either
+            net::sleep_ms(950);
+            ::close(fd);
+            break;
+        }
+        case LateComer: {
+            net::sleep_ms(1500);
+            fd = net::connect_loopback(port);
+            if (fd < 0)
+            {
+                s.fail = "connect failed";
+                return;
+            }
+            if (!net::send_all(fd, REQ) || !net::read_message(fd, carry, true, m, 6000, err) || m.status != 200)
+                s.fail = "a connection made 1.5 s into the round (an idle connection had timed out AND closed while the worker was busy, the worker is busy again) sent a request and got "
+                    + (err.empty() ? "status " + std::to_string(m.status) : err) + " instead of its 200";
+            ::close(fd);
             break;
         }
         case Silence: {
@@ -484,6 +542,21 @@ namespace verif
                 ++rounds;
                 desc += std::to_string(nf) + "x served-files | ";
             }
+        }
+        if (timeouts && workers == 1)
+        {
+            // (derived from the configuration, no choice consumed) the choreographed round described at the three roles
+            std::vector<ConnScript> r(4);
+            r[0].end = IdleGoneWhileBusy;
+            r[1].end = BusyTwice;
+            r[2].end = BusySecond;
+            r[3].end = LateComer;
+            for (auto& s : r)
+                kinds.insert(int(s.end));
+            plan.push_back(r);
+            ++rounds;
+            inflight = true;
+            desc += "idle-timeout + close of the idle client + a slow request in ONE wake-up of the worker, then a new connection | ";
         }
         std::string cfg = "workers=" + std::to_string(workers) + (timeouts ? " timeouts=1s" : "") + " rounds=" + std::to_string(rounds);
         rep.label(timeouts ? "with-idle-timeouts" : "no-timeouts");
